@@ -252,6 +252,7 @@ pub fn cfg_from(c: &mut Cur, p: &Profile) -> SimCfg {
     let session_expiry = if c.prob(0.3) { Some(c.pick(&[0u32, 3600])) } else { None };
     let connack = connack_template_from(c, p);
     let connack_alt = if c.prob(0.4) { Some(connack_template_from(c, p)) } else { None };
+    let session_loss_every = c.wpick(&[(5, 0u8), (2, 2u8), (1, 3u8)]);
     let mut cfg = SimCfg {
         v5,
         offline,
@@ -272,6 +273,7 @@ pub fn cfg_from(c: &mut Cur, p: &Profile) -> SimCfg {
         drain: p.drain,
         first_pid,
         connack_alt,
+        session_loss_every,
     };
     if !cfg.v5 {
         // MQTT 3.1.1 has no CONNACK properties (same normalisation as gen::cfg_strategy)
